@@ -91,6 +91,9 @@ impl Deserialize for PlutusMap {
                 cbor_event::Len::Indefinite => true,
             } {
                 if is_break_tag(raw, "PlutusMap")? {
+                    if len != cbor_event::Len::Indefinite {
+                        return Err(DeserializeFailure::BreakInDefiniteLen.into());
+                    }
                     break;
                 }
                 let key = PlutusData::deserialize(raw)?;
@@ -280,6 +283,11 @@ impl Deserialize for PlutusList {
                 cbor_event::Len::Indefinite => true,
             } {
                 if is_break_tag(raw, "PlutusList")? {
+                    // the original bytes of a datum are kept: a break inside a definite-length
+                    // list would be written back as not well-formed CBOR
+                    if len != cbor_event::Len::Indefinite {
+                        return Err(DeserializeFailure::BreakInDefiniteLen.into());
+                    }
                     break;
                 }
                 arr.push(PlutusData::deserialize(raw)?);
